@@ -29,7 +29,7 @@ MANIFEST = dict(
     text="proof (partial). Machine-checked (Coq) for a model of Number::pretty_print_with and of pretty_dtoa's "
          "digits_to_a under numbat's configuration: for EVERY integer z and every separator/threshold setting, removing "
          "the separator from the displayed text gives exactly the decimal digits of z, which the literal reader reads "
-         "as z (C14_int, C14_int_digits); for EVERY shortest-digit string, decimal exponent and significant-digit "
+         "as z, and those digits are the canonical decimal numeral (C14_int, C14_int_digits, C14_int_canonical); for EVERY shortest-digit string, decimal exponent and significant-digit "
          "setting the float branch yields a literal of numbat's number syntax whose value is the shortest decimal "
          "rounded half-up to min(limit, available) significant digits, and that rounding is a nearest one "
          "(C14_float, C14_round_sig_correct); numbat's trimming/e+ post-processing preserves the value (C14_post); "
@@ -44,7 +44,7 @@ MANIFEST = dict(
     technique="Coq proof over an executable model + model/implementation correspondence by vm_compute + exact-rational oracle",
 )
 
-THEOREMS = ["C14_int", "C14_int_digits", "C14_float", "C14_round_sig_correct", "C14_post", "C14_special"]
+THEOREMS = ["C14_int", "C14_int_digits", "C14_int_canonical", "C14_float", "C14_round_sig_correct", "C14_post", "C14_special"]
 
 SEPS = ["_", ",", " ", "'", "", ".", "\u2009", "\u00a0", "__", "abc", "12345678", "\u2009\u2009\u2009",
         "123456789", "0", "-", "e", "x_x", "\u066c", "\u00b7", "\u2009\u2009\u2009\u2009"]
